@@ -318,6 +318,8 @@ func (r *runState) applyHash(alg string, stream value) value {
 		}
 		res = r.declare(r.fresh("H_"+alg), smt.SString, "hash")
 		r.assertPC(smt.Eq(smt.StrLen(res), smt.IntC(int64(hashLen(alg)))))
+		// digests are hex strings; all the model needs is that they are separator free
+		r.sepFree[res.Name] = true
 	}
 	for _, a := range r.hashApps {
 		if a.alg != alg {
